@@ -12,6 +12,7 @@ mod c16;
 mod c13;
 mod c12;
 mod c17;
+mod c15;
 
 use std::io::{BufRead, Write};
 
@@ -57,6 +58,7 @@ fn lookup(id: &str) -> Option<(&'static str, Gen, Exec)> {
         "C13" => Some(("C13", c13::generate, c13::exec)),
         "C12" => Some(("C12", c12::generate, c12::exec)),
         "C17" => Some(("C17", c17::generate, c17::exec)),
+        "C15" => Some(("C15", c15::generate, c15::exec)),
         _ => None,
     }
 }
